@@ -430,7 +430,7 @@ def run(ctx):
 
 
 MANIFEST_ENTRY = {
-    "technique": "static analysis: traversal-completeness over the ParsedValue enum (syn, canonical form), abstract evaluation of the populate / resolve drivers and of the argument naming helpers, MIR parameter-provenance of locale arguments across lookup / nested resolution / populate (closure-aware), dominance ordering of the passes, who-may-construct unresolved references",
+    "technique": "static analysis: traversal-completeness over the ParsedValue enum (syn, canonical form), abstract evaluation of the populate / resolve drivers and of the argument naming helpers, MIR parameter-provenance of locale arguments across lookup / nested resolution / populate (closure-aware), dominance ordering of the passes, who-may-construct unresolved references; the parse-time range matcher used for literal count arguments agrees with the generated run-time patterns (shared with C04)",
     "level_text": "Structural: substitution is shown to reach every child kind, every step of a resolution is shown to use one locale (by provenance of the locale operands), references are shown recorded at creation and all visited, and the pass order is decided by dominance. No reference is evaluated.",
     "level_note": "Trusted: RefCell borrow semantics for cycle detection. Known finding D11 (null target ignores `inherits`). Not decided: concrete rendered text.",
 }
